@@ -263,7 +263,7 @@ def run(ctx):
                      % (r.rc, r.violated, r.out[-1500:]))
     # 2. behaviours
     if thorough:
-        gens = [("mc/Handles_gen3.cfg", None, None), ("mc/Handles_sim.cfg", 400, 20)]
+        gens = [("mc/Handles_gen2.cfg", None, None), ("mc/Handles_gen3.cfg", None, None), ("mc/Handles_sim.cfg", 300, 20)]
     else:
         gens = [("mc/Handles_gen2q.cfg", None, None), ("mc/Handles_sim.cfg", 40, 20)]
     behaviours = []
@@ -308,11 +308,15 @@ def run(ctx):
         # left alive on purpose freed by the replayer) no heap block allocated by the library may be unreachable
         env["ASAN_OPTIONS"] = "detect_leaks=1:leak_check_at_exit=0:abort_on_error=0:exitcode=86:detect_stack_use_after_return=0"
         env["HR_LEAKCHECK"] = str(LEAK_EVERY)
-        outs, crashes = parallel_replay(ctx, exe, env, cases, W)
-        steps_checked += compare(ctx, behaviours, cases, outs, crashes, mode)
+        # the OpenMP device shares the Serial implementation of everything modelled here: every third behaviour
+        sel = list(range(len(cases))) if mode == "Serial" else list(range(0, len(cases), 3))
+        mcases = [cases[i] for i in sel]
+        mbeh = [behaviours[i] for i in sel]
+        outs, crashes = parallel_replay(ctx, exe, env, mcases, W)
+        steps_checked += compare(ctx, mbeh, mcases, outs, crashes, mode)
         results, chunks = parallel_replay.last
-        find_leaks(ctx, exe, env, cases, results, chunks, LEAK_EVERY,
-                   lambda g: [(t["a"], t["s"], t["t"], t["n"]) for t in behaviours[g]["h"]])
+        find_leaks(ctx, exe, env, mcases, results, chunks, LEAK_EVERY,
+                   lambda g: [(t["a"], t["s"], t["t"], t["n"]) for t in mbeh[g]["h"]])
         leak_checks += sum(len(r[0]) - 2 for r in results) // LEAK_EVERY
         replayed += len(outs)
         ncrash += len(crashes)
